@@ -253,7 +253,11 @@ func (c c16) direct(p *core.Plan, w *world.World, res *core.Result, spare int, p
 			bk, _ := ecdsa.CreateKey(cv, ar.Put("blind-key-bytes", bkb))
 			ctx := ar.Put("context", r.Bytes(ctxLen))
 			dg := sha512.Sum384(r.Bytes(20))
-			digest := ar.Put("digest", dg[:])
+			dgb := dg[:]
+			if dl := []int{48, 48, 20, 32, 64, 66, 67, 100, 128}[r.Intn(9)]; dl != 48 {
+				dgb = r.Bytes(dl) // digests shorter and longer than the group order
+			}
+			digest := ar.Put("digest", dgb)
 			switch op {
 			case 0:
 				name = "ecdsa.BlindPublicKeyWithContext"
